@@ -37,11 +37,22 @@ def post_check(ref, pkt, key, got, pkt_matches=None):
     if pkt_matches is None:
         pkt_matches = ref.pkt_matches(pkt)
     exp = ref.check(pkt, key, pkt_matches=pkt_matches)
+    if got != exp and got in (True, False):
+        # defect model of C11 (a rule with a constrained temporary pattern referenced twice keeps the constraint on the
+        # first copy only) - same defect observed through check()
+        if ref.check(pkt, key, lost_repeat=True) == got and ref.check(pkt, key, skip_cons_on_bound=True) != got:
+            return ('C12:temp-constraint-lost-on-repeated-reference',
+                    'check says %r, the schema says %r: a rule with a constrained temporary pattern is referenced twice '
+                    'in one name pattern and only the first copy keeps the constraint (defect of C11 seen through '
+                    'check)' % (got, exp))
     if got is True and exp is False:
         if ref.check(pkt, key, skip_cons_on_bound=True, pkt_matches=pkt_matches):
             return ('C12:bound-tag-skips-constraints',
                     'check says yes although the key name violates a constraint of the key rule: the constraint is on '
                     'a pattern that already got its value from the packet name and is skipped')
+        if ref.check(pkt, key, skip_cons_on_bound=True, lost_repeat=True):
+            return ('C12:temp-constraint-lost-on-repeated-reference',
+                    'check says yes: combination of the repeated-reference defect and the bound-tag defect')
         if not key_matches_some_rule(ref, key, pkt_matches):
             return ('C12:yes-for-key-matching-no-rule', 'check says yes for a key name that matches no rule at all')
         return ('C12:check-yes-not-allowed', 'check says yes but no definition matched by the packet lists a rule '
